@@ -217,7 +217,7 @@ def c03_known(case, impl, model, spec):
     # the depth at which the drop glue exhausts 64 KiB depends on compiler-chosen frame sizes
     # (observed: > 930 for arrays, between 450 and 500 for objects): anything above 200 is the
     # recorded finding, anything at or below 100 is not
-    if t[0] == "d" and t[1] in ("arr_garbage", "obj_garbage", "arr_sibling") and int(t[2]) > 200 \
+    if t[0] in ("d", "dd") and t[1] in ("arr_garbage", "obj_garbage", "arr_sibling") and int(t[2]) > 200 \
             and impl.startswith("ABORT") and model == "ERR":
         return "C03-drop-after-deep-close"
     return None
